@@ -99,6 +99,14 @@ def gen_tasks(tier, seed):
                 tasks.append({**base, "kind": kind, "cls": cls, "edges": arb, "starts": [v], "ends": [], "kwargs": {"k": k, "weight_type": "int", "additional_starts": [v]}})
                 tasks.append({**base, "kind": kind, "cls": cls, "edges": arb, "starts": [], "ends": [w], "kwargs": {"k": k, "weight_type": "int", "additional_ends": [w]}})
             tasks.append({**base, "kind": "cover", "cls": "kPathCover", "edges": es, "starts": [v], "ends": [w], "kwargs": {"k": max(1, k - 1), "additional_starts": [v], "additional_ends": [w]}})
+            # the same inner node declared as additional start AND additional end (every inner node in turn)
+            for vb in inner:
+                for kind, cls in (("lae", "kLeastAbsErrors"), ("mpe", "kMinPathError")):
+                    tasks.append({**base, "kind": kind, "cls": cls, "edges": arb, "starts": [vb], "ends": [vb], "kwargs": {"k": k, "weight_type": "int", "additional_starts": [vb], "additional_ends": [vb]}})
+                    # structured: everything before vb heavy, everything after light (a route ending at vb is needed for error 0)
+                    before = nx.ancestors(G, vb)
+                    sw_ = [(u, v, 5 if (v == vb or v in before) else 3) for (u, v) in es]
+                    tasks.append({**base, "kind": kind, "cls": cls, "edges": sw_, "starts": [vb], "ends": [vb], "kwargs": {"k": 2, "weight_type": "int", "additional_starts": [vb], "additional_ends": [vb]}})
         # frame: ignoring / scale 0 removes the element's influence and nothing else
         if len(es) > 1:
             e0, e1 = rng.sample(es, 2)
